@@ -372,6 +372,14 @@ class Function(NodeOwner):
                 B.term = self.nodes[b['term']] if 'term' in b else None
                 B.termKind = b.get('termKind')
                 B.cond = self.nodes[b['cond']] if 'cond' in b else None
+                # for `if (a || b)` the block that evaluates b has the IfStmt as terminator and
+                # clang reports the whole `a || b` as its condition; the value actually branched
+                # on is the right-most operand
+                if B.cond is not None:
+                    c = strip(B.cond, casts=False)
+                    while c is not None and c.k == 'BinaryOperator' and c.get('op') in ('&&', '||'):
+                        c = strip(c.ch[1], casts=False)
+                    B.cond = c
                 B.label = self.nodes[b['label']] if 'label' in b else None
                 B.all_succs = list(zip(b['succs'], b['succUnreachable']))
                 B.succs = [s for s, u in B.all_succs if s is not None and not u]
